@@ -941,5 +941,4 @@ var errAllowScorch = map[string]string{
 	"index/scorch.(*Scorch).loadSegment/Get":                       "BoltBucketImpl.Get returns nil bytes together with any error; the nil test that follows reports 'segment path missing', so the failure is not silent (only its text is lost)",
 	"index/scorch.(*IndexSnapshotFieldDict).Contains/Contains":     "read-side dictionary probe (not on the durability path): a vellum error only arises from a corrupt FST and is answered as 'not contained'",
 	"index/scorch.(*IndexSnapshotThesaurusKeys).Contains/Contains": "read-side thesaurus probe (not on the durability path): same as FieldDict.Contains",
-	"index/scorch.(*IndexSnapshot).CopyTo$1/err":                   "Close error of the backup's bolt file after a successful Commit+Sync: the copy is already durable; the dead store means the Close error is not reported (harmless here, same shape as the repaired F13)",
 }
